@@ -2473,6 +2473,11 @@ class Executor:
                 return rec([], 0)
             if isinstance(c, ListContent):
                 return [self.concretize(st, x, model) for x in c.items]
+            if isinstance(c, SeqContent):
+                n = ev(c.length)
+                if not isinstance(n, int) or n > 64 or n < 0:
+                    return {'seq_length': n, 'too_large': True}
+                return [ev(z3.Select(c.data, i)) for i in range(n)]
             if isinstance(c, ObjContent):
                 return {a: self.concretize(st, x, model) for a, x in c.attrs.items()}
             return repr(c)
